@@ -131,6 +131,61 @@ func selftest() {
 			break
 		}
 	}
+	// array/page layout binding (DenseImpl.tla / PagedImpl.tla): corrupt one recorded layout field
+	layoutTest := func(name, module, cfg string, kinds []string, ops []string, corrupt func(lay map[string]interface{}) bool) {
+		p := filepath.Join(c.Scratch, name+".ndjson")
+		f, _ := os.Create(p)
+		w := bufio.NewWriter(f)
+		if pr, _ := recordStoreTrace(w, rng, traceGenOpts{Layout: true, MaxWidth: 40, Events: 400, Kinds: kinds, Limits: []int{4, 16}, Ops: ops}, counters); pr != "" {
+			infraFail("selftest: %s", pr)
+		}
+		w.Flush()
+		f.Close()
+		res := c.runTLC(TLCOpts{Module: module, Cfg: cfg, Purpose: "selftest " + name, Workers: 1, Env: []string{"VERIF_TRACE=" + p}, Timeout: 5 * time.Minute})
+		if res.Violated != "" {
+			fmt.Printf("selftest FAILED: unmodified %s trace rejected by %s\n", name, module)
+			ok = false
+			return
+		}
+		b, _ := os.ReadFile(p)
+		ls := bytes.Split(bytes.TrimSpace(b), []byte("\n"))
+		done := false
+		for i := len(ls) / 2; i < len(ls) && !done; i++ {
+			var ev map[string]interface{}
+			json.Unmarshal(ls[i], &ev)
+			if lay, has := ev["lay"].(map[string]interface{}); has && corrupt(lay) {
+				ls[i], _ = json.Marshal(ev)
+				done = true
+			}
+		}
+		if !done {
+			infraFail("selftest: nothing to corrupt in the %s trace", name)
+		}
+		os.WriteFile(p, append(bytes.Join(ls, []byte("\n")), '\n'), 0o644)
+		res = c.runTLC(TLCOpts{Module: module, Cfg: cfg, Purpose: "selftest " + name + " corrupted", Workers: 1, Env: []string{"VERIF_TRACE=" + p}, Timeout: 5 * time.Minute})
+		if res.Violated == "" {
+			fmt.Printf("selftest FAILED: %s trace with a corrupted layout field was ACCEPTED by %s\n", name, module)
+			ok = false
+		} else {
+			fmt.Printf("selftest: %s trace accepted by %s, and rejected with one corrupted layout field\n", name, module)
+		}
+	}
+	layoutTest("dense-layout", "Trace_Dense", traceDenseCfg, []string{"dense", "low", "high"}, []string{"Add", "AddWithCount", "Merge", "Clear", "CopyTo", "Reweight"},
+		func(lay map[string]interface{}) bool {
+			if lay["len"].(float64) < 4 {
+				return false
+			}
+			lay["off"] = lay["off"].(float64) + 1
+			return true
+		})
+	layoutTest("paged-layout", "Trace_Paged", tracePagedCfg, []string{"paged"}, []string{"Add", "Add", "Add", "Add", "AddWithCount", "Clear", "CopyTo", "Reweight", "Read"},
+		func(lay map[string]interface{}) bool {
+			if lay["palloc"].(float64) < 1 {
+				return false
+			}
+			lay["trig"] = lay["trig"].(float64) + 1
+			return true
+		})
 	if !ok {
 		os.Exit(1)
 	}
